@@ -2,6 +2,7 @@ package main
 
 import (
 	"fmt"
+	"go/types"
 	"strings"
 
 	"golang.org/x/tools/go/ssa"
@@ -295,8 +296,13 @@ func c15DoLint(c *Ctx, r *Report) {
 // anyPredicate: the "was any selector given?" test of setLints — its closure, or
 // a package-level function of the shape func(...string) bool it calls.
 func anyPredicate(fn *ssa.Function) *ssa.Function {
+	isAny := func(sig *types.Signature) bool {
+		return sig.Params().Len() == 1 && sig.Results().Len() == 1 && sig.Results().At(0).Type().String() == "bool" && sig.Params().At(0).Type().String() == "[]string"
+	}
 	for _, a := range fn.AnonFuncs {
-		return a
+		if isAny(a.Signature) {
+			return a
+		}
 	}
 	var out *ssa.Function
 	allInstrs(fn, func(in ssa.Instruction) {
@@ -322,7 +328,7 @@ var resolvedSrcField = map[string]string{}
 func c15SetLints(c *Ctx, r *Report) {
 	fn := c.Func("cmd/zlint", "setLints")
 	anyPred := anyPredicate(fn)
-	outs, abort := Enumerate(fn, SymOpts{Inline: func(*ssa.Function) bool { return false }, NoReturn: isFatal, MaxPaths: 50000, Opaque: func(f *ssa.Function) bool { return f == anyPred }})
+	outs, abort := Enumerate(fn, SymOpts{Inline: func(*ssa.Function) bool { return false }, NoReturn: isFatal, MaxPaths: 50000, Opaque: func(f *ssa.Function) bool { return f == anyPred || isTransparentLib(f) }})
 	if abort != "" {
 		r.Unk("setlints-table", "setLints", fn.Pos(), abort)
 		return
@@ -392,6 +398,10 @@ func c15SetLints(c *Ctx, r *Report) {
 						return errVal{}, true
 					}
 					return nil, true
+				case strings.HasPrefix(t.Name, "slices.ContainsFunc") && len(t.Args) == 2 && t.Args[1].Fn != nil && nonEmptyStringPred(t.Args[1].Fn):
+					// slices.ContainsFunc([]string{flags…}, func(s string) bool { return s != "" })
+					anyArgs = t.String()
+					return any, true
 				case strings.HasPrefix(t.Name, "closure:") || strings.HasPrefix(t.Name, "dyn:") || strings.Contains(t.Name, "setLints$") || (anyPred != nil && t.Name == fname(anyPred)):
 					// anyFilters(...)
 					anyArgs = t.String()
@@ -537,7 +547,7 @@ func c15SetLints(c *Ctx, r *Report) {
 			for _, f := range flags {
 				found := false
 				for mk, v := range o.Mem {
-					if strings.Contains(mk, "<varargs>[") && v.String() == "cmd/zlint."+f {
+					if (strings.Contains(mk, "<varargs>[") || strings.Contains(mk, "<slicelit>[")) && v.String() == "cmd/zlint."+f {
 						found = true
 					}
 				}
@@ -810,4 +820,37 @@ func c15DoLintCall(r *Report, call ssa.CallInstruction, n int, setl string) {
 	} else {
 		r.OK("main-wiring", fmt.Sprintf("doLint#%d|format", n), call.Pos(), false, "format argument does not depend on earlier files")
 	}
+}
+
+// nonEmptyStringPred: f is func(s string) bool { return s != "" } (in any form
+// the engine normalises to that).
+func nonEmptyStringPred(f *ssa.Function) bool {
+	if len(f.Params) != 1 || len(f.FreeVars) != 0 {
+		return false
+	}
+	outs, abort := Enumerate(f, SymOpts{Inline: func(*ssa.Function) bool { return false }})
+	if abort != "" {
+		return false
+	}
+	p := f.Params[0].Name()
+	for _, v := range []string{"", "x"} {
+		oracle := func(t *T) (interface{}, bool) {
+			if t.String() == p {
+				return v, true
+			}
+			if t.Op == "call" && t.Name == "builtin:len" && len(t.Args) == 1 && t.Args[0].String() == p {
+				return int64(len(v)), true
+			}
+			return nil, false
+		}
+		sel, err := Select(outs, oracle)
+		if err != nil || len(sel) != 1 || sel[0].Kind != "return" || len(sel[0].Results) != 1 {
+			return false
+		}
+		got, err := Eval(sel[0].Results[0], oracle)
+		if err != nil || got != (v != "") {
+			return false
+		}
+	}
+	return true
 }
